@@ -335,16 +335,8 @@ theorem src_refs_untouched (n : Nat) (s : Py.SliceSt R) :
     ((skip_bits n s).1.refs = s.refs ∧ (skip_bits n s).1.ref_offset = s.ref_offset) ∧
     ((load_ref s).1.bits = s.bits ∧ (load_ref s).1.refs = s.refs) := by
   obtain ⟨bits, refs, off⟩ := s
-  refine ⟨?_, ?_, ?_, ?_, ?_⟩
-  · unfold load_uint preload_uint Py.bindS Py.bindO Py.zoom
-    cases Py.ba2intU? (Py.slice bits 0 n) <;> simp <;> split <;> simp
-  · unfold load_int preload_int Py.bindS Py.bindO Py.zoom
-    cases Py.ba2intS? (Py.slice bits 0 n) <;> simp <;> split <;> simp
-  · unfold load_bits preload_bits Py.bindS Py.zoom
-    simp; split <;> simp
-  · unfold skip_bits Py.bindS Py.zoom
-    simp; split <;> simp
-  · unfold load_ref Py.bindO
-    cases refs[off]? <;> simp
+  refine ⟨?_, ?_, ?_, ?_, ?_⟩ <;>
+    simp only [load_uint, load_int, load_bits, load_ref, preload_uint, preload_int, preload_bits, skip_bits, Py.bindS, Py.bindO, Py.zoom] <;>
+    (repeat' split) <;> simp_all
 
 end TonVerif.Proofs.SrcSlice
